@@ -392,6 +392,21 @@ def escaped_set(prog, f):
     visit(f.body, [])
     if not guards:
         return None
+    # locals with exactly one definition (their initialiser) and no other assignment: also inside the loop
+    udefs = {}
+    assigned = set()
+    from ..program import all_exprs as _ae
+    for ex_ in _ae(f):
+        for n_ in walk(ex_):
+            if (n_.k == 'bin' and n_.op.endswith('=') and n_.op not in ('==', '!=', '<=', '>=')) or \
+                    (n_.k == 'un' and n_.op in ('++', '--', '&')):
+                l_ = strip(n_.a[0])
+                if l_ is not None and l_.k == 'var':
+                    assigned.add(l_.decl)
+    for s_ in walk_stmts(f.body):
+        if s_.k == 'decl' and s_.e is not None and s_.var.decl not in assigned:
+            udefs[s_.var.decl] = s_.e
+    depth = [0]
 
     def ev(e, v):
         e = strip(e)
@@ -402,8 +417,17 @@ def escaped_set(prog, f):
             return cv
         if e.k == 'null':
             return 0
-        if e.k in ('var',) and not (e.t or '').rstrip().endswith('*'):
-            return v
+        if e.k == 'var' and not (e.t or '').rstrip().endswith('*'):
+            if e.decl in udefs and depth[0] < 6:
+                depth[0] += 1
+                try:
+                    return ev(udefs[e.decl], v)     # a local with a single definition stands for that expression
+                finally:
+                    depth[0] -= 1
+            if 'char' in (e.t or ''):
+                return v
+            raise AnalysisBroken('%s: guard of the backslash store depends on %s, whose value the finite evaluation '
+                                 'cannot determine' % (f.name, e.op))
         if (e.k == 'un' and e.op == '*') or e.k == 'idx':
             return v                      # the character under the cursor
         if e.k == 'un' and e.op == '!':
